@@ -7,6 +7,7 @@ import (
 	"flag"
 	"fmt"
 	"go/ast"
+	"go/parser"
 	"go/printer"
 	"go/token"
 	"go/types"
@@ -143,6 +144,33 @@ func main() {
 			if err := (&printer.Config{Mode: printer.UseSpaces | printer.TabIndent, Tabwidth: 8}).Fprint(&buf, p.Fset, f); err != nil {
 				fmt.Fprintln(os.Stderr, err)
 				os.Exit(2)
+			}
+			// keep stack traces and panic locations close to the original source: anchor every function declaration
+			// of the rewritten file at its original line with a //line directive
+			var origLines []int
+			for _, d := range f.Decls {
+				if fd, ok := d.(*ast.FuncDecl); ok {
+					origLines = append(origLines, p.Fset.Position(fd.Pos()).Line)
+				}
+			}
+			fset2 := token.NewFileSet()
+			if nf, err := parser.ParseFile(fset2, fname, buf.Bytes(), 0); err == nil {
+				var newLines []int
+				for _, d := range nf.Decls {
+					if fd, ok := d.(*ast.FuncDecl); ok {
+						newLines = append(newLines, fset2.Position(fd.Pos()).Line)
+					}
+				}
+				if len(newLines) == len(origLines) {
+					lines := strings.Split(buf.String(), "\n")
+					for i := len(newLines) - 1; i >= 0; i-- {
+						at := newLines[i] - 1
+						dir := fmt.Sprintf("//line %s:%d", fname, origLines[i])
+						lines = append(lines[:at], append([]string{dir}, lines[at:]...)...)
+					}
+					buf.Reset()
+					buf.WriteString(strings.Join(lines, "\n"))
+				}
 			}
 			dst := filepath.Join(*out, strings.ReplaceAll(rel, "/", "__"))
 			if err := os.WriteFile(dst, buf.Bytes(), 0644); err != nil {
